@@ -75,7 +75,6 @@ def _():
     invariant(inv_X(self))
     invariant(inv_Q(self))
     invariant(conn_timers_ok(self))
-    invariant(queue == Q(self) and window == W(self))
     invariant(dq_tail(Q(self)) == old(dq_tail(Q(self))) and old(dq_head(Q(self))) <= dq_head(Q(self)))
     invariant(forall(lambda j: implies(dq_head(Q(self)) <= j and j < dq_tail(Q(self)), dq_at(Q(self), j) == old(dq_at(Q(self), j)))))
     invariant(len(out(self)) == len(old(out(self))) + (dq_head(Q(self)) - old(dq_head(Q(self)))))
